@@ -23,7 +23,7 @@ import traceback
 
 ID = "C09"
 LEVEL = "exploration"
-CHUNK_TIMEOUT = 1500
+CHUNK_TIMEOUT = 3600
 RULE = (
     "fragment programs (ints, if/elif/else, bounded while/for, break/continue, locals, one module global, attribute get/set on "
     "objects of a module class incl. aliases and methods, list literal/index/append/subscript store, helper calls with early "
@@ -37,20 +37,22 @@ RULE = (
 )
 ASSUMPTIONS = [
     "sys.monitoring LINE events of CPython 3.12 on the uninstrumented twin define 'executed line'",
-    "the IR interpreter's dependences are certain dynamic data/control dependences (it under-approximates); mutation through "
-    "list.append is a documented limitation of the slicer (tests/slicer/test_expected_failures.py::test_mod_untraced_object) "
-    "and is recorded as anomaly, not as violation",
+    "the IR interpreter's dependences are certain dynamic data/control dependences (it under-approximates)",
+    "not demanded, only recorded as anomaly 'documented-limitation:*': mutation through list.append (tests/slicer/"
+    "test_expected_failures.py::test_mod_untraced_object) and the definition of the base reference of an attribute load/store "
+    "and of the container/index of a subscript store (slicer/stack/stacksimulation.py update_push_operations: 'the use data "
+    "for these will not be searched for')",
     "an untraced instruction of a slice counts as executed when its basic block has an entry in the trace or its line was executed",
     "a slicer exception is a violation only because it escapes the executor thread and turns the whole result into timeout=True",
 ]
 
-DEP_CLASSES = ["if", "elif", "while", "for", "local-assign", "global-store", "global-init", "attribute-store", "attribute-store-in-init",
+DEP_CLASSES = ["if", "elif", "while", "for", "for-with-break", "local-assign", "global-store", "global-init", "attribute-store", "attribute-store-in-init",
                "object-creation", "list-literal", "list-append", "subscript-store", "return"]
 
 
 def floors(tier):
     q = tier == "quick"
-    classes = {f"dep:{c}": 6 for c in DEP_CLASSES}
+    classes = {f"dep:{c}": 4 for c in DEP_CLASSES}  # met by the directed chunk alone
     classes.update({
         "fragment:completeness-evaluated": 900 if q else 9000, "fragment:two-statement-test": 250 if q else 2500,
         "metrics:BRANCH+LINE+CHECKED": 200 if q else 2000, "metrics:CHECKED": 600 if q else 6000,
@@ -62,12 +64,12 @@ def floors(tier):
 
 def plan(tier, seed):
     q = tier == "quick"
-    nprog, per = (320, 20) if q else (3200, 100)
+    nprog, per = (320, 20) if q else (3200, 50)
     out = [{"name": "directed"}]
     out += [{"name": "fragment", "seed": seed, "start": i, "n": per} for i in range(0, nprog, per)]
-    na, pa = (48, 24) if q else (480, 60)
+    na, pa = (48, 24) if q else (480, 40)
     out += [{"name": "assertions", "seed": seed, "start": 100000 + i, "n": pa} for i in range(0, na, pa)]
-    nr, pr = (16, 4) if q else (160, 10)
+    nr, pr = (16, 4) if q else (160, 8)
     out += [{"name": "rich", "seed": seed, "start": i, "n": pr} for i in range(0, nr, pr)]
     return out
 
@@ -313,7 +315,8 @@ def _fragment_program(env, ctx, prog, inputs, origin, metric_names, two_stmt_inp
             executed = ld.import_lines | tw_lines
             # ---- the real thing
             res, cap = env.execute(ld, codes)
-            classes = ["fragment:completeness-evaluated", f"metrics:{ld.metrics}"] + [f"dep:{prog.tag[ln]}" for ln in need if ln in prog.tag]
+            classes = ["fragment:completeness-evaluated", f"metrics:{ld.metrics}"] + [f"dep:{prog.tag[ln].replace('-with-break', '')}" for ln in need if ln in prog.tag]
+            classes += [f"dep:{prog.tag[ln]}" for ln in need if prog.tag.get(ln, "").endswith("-with-break")]
             if two:
                 classes.append("fragment:two-statement-test")
             ctx.ok(cls=sorted(set(classes)), distinct=f"{origin}|{a},{b}|{ld.metrics}|{int(two)}" if len(need) >= 4 else None)
@@ -337,6 +340,9 @@ def _fragment_program(env, ctx, prog, inputs, origin, metric_names, two_stmt_inp
                             f"lines {sorted(map(str, extra))} reported as checked but never executed; e.g. {ln}: {src_lines[ln - 1].strip() if isinstance(ln, int) else ''!r}", case)
             # (b) slice ⊆ trace ∪ {criterion}
             for _spos, crit in sorted(cap.get("criteria", {}).items()):
+                ei = trace.executed_instructions[crit.trace_position]
+                if not (ei.file == "<ast>" and ei.name.startswith("STORE_")):
+                    ctx.anomaly(f"statement-criterion-is-{ei.name}-not-the-store-of-the-statement")
                 _check_slice_in_trace(ctx, ld, trace, crit.trace_position, executed, case)
             # (c) completeness on the fragment
             _completeness(ctx, prog, D, need, need_sup, direct, root, checked, src_lines, case, "")
@@ -552,3 +558,25 @@ def run_chunk(spec, ctx):
         _assertion_chunk(spec, ctx)
     else:
         _rich_chunk(spec, ctx)
+
+
+def replay(w, ctx):
+    """Re-run one recorded witness case (fragment and rich workloads)."""
+    from vlib import depinterp as D
+
+    case = w.get("case") or {}
+    env = _Env(ctx)
+    if "origin" in case and "mode" not in case:
+        origin = case["origin"]
+        if origin.startswith("gen-"):
+            _g, seed, idx = origin.split("-")
+            prog = D.generate(int(seed), int(idx))
+        else:
+            prog = next(p for p, _ in D.directed() if p.name == origin)
+        two = len(case.get("statements", [])) == 2
+        _fragment_program(env, ctx, prog, [tuple(case["args"])], origin, tuple(case["metrics"].split("+")), two_stmt_input=0 if two else None)
+    elif "program" in case:
+        seed, idx = case["program"]
+        _rich_chunk({"seed": seed, "start": idx, "n": 1}, ctx)
+    else:
+        print("replay supports fragment and rich cases only; case:", case.get("origin"), case.get("mode"))
